@@ -408,6 +408,7 @@ func c14Seq(c c14Case, res map[string]any) {
 		row := []int64{0, 0, 0, 0, 0, 0, 0}
 		var dg []byte
 		gecko := false
+		atCap := false
 		switch op.O {
 		case "t":
 		case "g":
@@ -462,6 +463,7 @@ func c14Seq(c c14Case, res map[string]any) {
 			var snap map[reassemblyKey]struct{}
 			g.mu.Lock()
 			if len(g.reassembly) >= geckoMaxReassembly {
+				atCap = true
 				snap = make(map[reassemblyKey]struct{}, len(g.reassembly))
 				for k := range g.reassembly {
 					snap[k] = struct{}{}
@@ -546,7 +548,9 @@ func c14Seq(c c14Case, res map[string]any) {
 		if row[4] > 8 {
 			fail("more than 8 pending messages for one source")
 		}
-		if !big || si%64 == 0 || si == len(c.Ops)-1 {
+		// the full census is O(table): on big tables only every 64th step, at the end, and after every
+		// step that ran at the global cap (snapshot taken => an eviction may have happened)
+		if !big || si%64 == 0 || si == len(c.Ops)-1 || atCap {
 			if w := c14Census(g); w != "" {
 				fail(w + " (step " + strconv.Itoa(si) + ")")
 			}
